@@ -107,6 +107,8 @@ def run(ctx):
         ctx.cov["real_expiries_observed"] += sum(1 for x in vlib.read_ndjson(trace) if x.get("ev") == "M" and x["m"] == "NatRemove")
         ctx.cov.setdefault("behaviours_closing_the_listener_with_live_associations", 0)
         ctx.cov["behaviours_closing_the_listener_with_live_associations"] += sum(1 for x in sums if x.get("live_at_close", 0) > 0)
+    # a client datagram in the window between the deadline firing and natmap.del
+    U.window(ctx, U.PROPS["C14"] + ["MetricsLanguage", "PktTPerReply", "OnePerClient", "SrcPrivate"])
     if rows is None and not rb:
         raise vlib.Inconclusive("no driver covered C14")
     if not q:
